@@ -195,13 +195,14 @@ open Qryn.Prom in
 theorem processHints_good {cfg : Cfg} {w : Window} (hh : Hints) {q : Sel} (g : GoodB cfg w q) : GoodB cfg w (processHints hh q) := by
   unfold processHints
   dsimp only
-  have g1 : GoodB cfg w (if (instantFns.contains hh.func || hh.func == "") = true then
+  have g1 : GoodB cfg w (if ((instantFns.contains hh.func || hh.func == "") && hh.rangeMs == 0 && lookbackMs % hh.stepMs == 0) = true then
       (Sel.mk [] false
         [.raw "fingerprint", simpleCol "argMax(spls.value, spls.timestamp_ms)" "value",
-         simpleCol ("intDiv(spls.timestamp_ms - " ++ toString hh.startMs ++ " + " ++ toString hh.stepMs ++ " - 1, " ++
-           toString hh.stepMs ++ ") * " ++ toString hh.stepMs ++ " + " ++ toString hh.startMs) "timestamp_ms"]
-        (some (.withRef (.named "spls"))) [] none none [.raw "timestamp_ms", .raw "fingerprint"] none
-        [.orderBy (.raw "fingerprint") .asc, .orderBy (.raw "timestamp_ms") .asc] none).with_ [(.named "spls", q)]
+         simpleCol "max(spls.timestamp_ms)" "last_ms"]
+        (some (.withRef (.named "spls"))) [] none none
+        [.raw ("intDiv(spls.timestamp_ms - " ++ toString hh.startMs ++ " + " ++ toString hh.stepMs ++ " - 1, " ++
+           toString hh.stepMs ++ ")"), .raw "fingerprint"] none
+        [.orderBy (.raw "fingerprint") .asc, .orderBy (.raw "last_ms") .asc] none).with_ [(.named "spls", q)]
       else q) := by
     split
     · refine ⟨?_, Or.inr (by simp only [fromOf_with_]; rfl)⟩
